@@ -47,6 +47,10 @@ CLAIMS = {
             "7 C12", "function contracts on state and emitted messages (Verus)"),
     "C18": ("Verus proves Allow requires the governance address and only adds or loosens an entry, no entry point removes an allow-list entry, transfer of a cw20 needs an entry or a default limit, every payout/refund sub-message carries gas_limit_for(token) (entry limit, else default), migrate keeps the allow list and sets but never unsets the default; lemma: per call an entry changes only by Allow from governance, limits only loosen.",
             "7 C18", "function contracts + monotonicity lemma (Verus)"),
+    "C19": ("Verus proves that every cw20-base handler preserves the mirror invariant ALLOWANCES[(o,s)] == ALLOWANCES_SPENDER[(s,o)] for every pair (increase, decrease/removal, every *_from draw write both maps with the same value), that the single-allowance query, the owner listing and the spender listing each return exactly the stored entry of their own map (listing contracts over the ASSUMED range model), a lemma that under the invariant the three views report the same amount and expiry, and that migrate of a pre-0.14 token with an empty spender map establishes the invariant (loop invariant over the owner-map listing).",
+            "7 C19", "function contracts + mirror invariant + loop invariant for migration (Verus)"),
+    "C20": ("Verus proves for 16 list queries (cw20 accounts / owner allowances / spender allowances, subkeys allowances (filtered by expiry) and permissions, cw3-fixed and cw3-flex proposals forward and reverse and votes, cw3-fixed voters, cw4-group and cw4-stake members, ics20 allow list) that the returned page is exactly page(listing, cursor, limit): the first min(limit or 10, 30) entries strictly after (before, for reverse) the cursor in key order of the ASSUMED cw-storage-plus range model, each shown with its stored value; lemmas prove that chaining pages by the last returned key yields consecutive slices of the listing (every item once, in order, for every size, limit and cursor). cw3-flex list_voters only forwards to the group contract and is outside.",
+            "7 C20", "function contracts against a page() spec function + pagination completeness lemmas (Verus)"),
 }
 
 NOT_YET = "machinery for this property is not built yet in this round (see DESIGN.md section 11 build order); not claimed until its unit verifies on the unchanged tree"
